@@ -121,6 +121,20 @@ type Outer struct {
 	OuterZ bool
 }
 
+// FirstPtr and FirstEmb mention a struct type only through their first field (a pointer, an embedded struct)
+// and have interface-typed fields that may hold a value of that type.
+type FirstPtr struct {
+	FpBase *Base
+	FpAny  any
+	FpList []any
+}
+
+type FirstEmb struct {
+	Mid
+	FeAny any
+	FeMap map[string]any
+}
+
 // Accent has a field whose first letter is an upper case non-ASCII letter.
 type Accent struct {
 	Été   int
@@ -128,7 +142,7 @@ type Accent struct {
 }
 
 var namedTypes = []reflect.Type{
-	reflect.TypeOf(EmbCount{}), reflect.TypeOf(Outer{}), reflect.TypeOf(Accent{}),
+	reflect.TypeOf(EmbCount{}), reflect.TypeOf(Outer{}), reflect.TypeOf(Accent{}), reflect.TypeOf(FirstPtr{}), reflect.TypeOf(FirstEmb{}),
 	reflect.TypeOf(Leaf{}), reflect.TypeOf(Base{}), reflect.TypeOf(Mid{}), reflect.TypeOf(PBase{}), reflect.TypeOf(Rec{}), reflect.TypeOf(Pair{}), reflect.TypeOf(Holder{}),
 	reflect.TypeOf(other.Rec{}), reflect.TypeOf(other.Pair{}), reflect.TypeOf(other.Box{}),
 }
@@ -147,7 +161,47 @@ var bytesType = reflect.TypeOf([]byte(nil))
 
 var fieldNames = []string{"Alpha", "Bravo", "Charlie", "Delta", "Echo", "Foxtrot", "Golf", "Hotel", "India", "Juliet", "URLs"}
 
+// inAny are the struct types (unique short names) that may sit behind an interface field.
+var inAny = map[reflect.Type]bool{reflect.TypeOf(Base{}): true, reflect.TypeOf(Mid{}): true, reflect.TypeOf(PBase{}): true, reflect.TypeOf(Accent{}): true, reflect.TypeOf(EmbCount{}): true}
+
+// reachable lists the inAny types the fields of t mention, at any depth and through any container.
+func reachable(t reflect.Type) []reflect.Type {
+	seen := map[reflect.Type]bool{}
+	var out []reflect.Type
+	var walk func(t reflect.Type, top bool)
+	walk = func(t reflect.Type, top bool) {
+		if seen[t] {
+			return
+		}
+		seen[t] = true
+		switch t.Kind() {
+		case reflect.Ptr, reflect.Slice, reflect.Array, reflect.Map:
+			walk(t.Elem(), false)
+		case reflect.Struct:
+			if t.Name() == "" {
+				return // an unnamed struct type cannot be registered by name: what it mentions stays unknown
+			}
+			if !top && inAny[t] {
+				out = append(out, t)
+			}
+			for i := 0; i < t.NumField(); i++ {
+				if f := t.Field(i); f.PkgPath == "" || f.Anonymous {
+					walk(f.Type, false)
+				}
+			}
+		}
+	}
+	if t.Name() == "" {
+		// an unnamed target is read field by field in map order and learns the types of its fields as it goes:
+		// which types are known when an interface member is reached is not defined
+		return nil
+	}
+	walk(t, true)
+	return out
+}
+
 type typeGen struct {
+	reach []reflect.Type
 	r *rand.Rand
 	// allowBytes: []byte fields do not survive either round trip (open finding F-C16-bytes); they are kept
 	// to one type in eight so that the failing round trip does not hide the other fields' behaviour
@@ -346,12 +400,22 @@ func (g *typeGen) fill(v reflect.Value, depth int, mode string) {
 			}
 		}
 	case reflect.Interface:
-		c := r.Intn(7)
+		c := r.Intn(8)
 		if full {
-			c = 1 + r.Intn(6)
+			c = 1 + r.Intn(7)
+		}
+		if c == 7 && (len(g.reach) == 0 || depth <= 0) {
+			c = 6
 		}
 		switch c {
 		case 0:
+		case 7:
+			// a pointer to a struct type the target type mentions somewhere in its fields: recomposing the
+			// target makes those types known, so the create key finds them whatever was recomposed before
+			t := g.reach[r.Intn(len(g.reach))]
+			pv := reflect.New(t)
+			g.fill(pv.Elem(), depth-1, mode)
+			v.Set(pv)
 		case 1:
 			v.Set(reflect.ValueOf(int64(7)))
 		case 2:
@@ -1012,6 +1076,7 @@ func run(c *mon.Ctx) {
 			mode := []string{"rand", "full", "zero"}[(i+k)%3]
 			c.Cover("value:" + mode)
 			pv := reflect.New(st)
+			g.reach = reachable(st)
 			g.fill(pv.Elem(), 3, mode)
 			ck.one(st, pv, mode)
 		}
